@@ -121,34 +121,45 @@ def run_hyp_phase(prop_id, ph, idx, ctx, stats, runner):
     runner.execute(run, spec)
   collect()
 
-  # shrink each new bucket separately: same seed, raise only for that bucket
-  for bucket in list(stats.failures)[:MAX_BUCKETS_SHRUNK]:
-    last = {}
+  for fl in stats.failures.values():
+    fl['shard'] = ctx['shard']
 
-    @hypothesis.seed(sd)
-    @_settings(n, shrink=True, extra=ph.get('settings'))
-    @given(strategy)
-    def shrink(spec):
-      b = runner.execute(run, spec, only_bucket=bucket, record=False)
-      if b is not None:
-        last['spec'] = spec
-        raise AssertionError(bucket)
-    try:
-      shrink()
-    except AssertionError:
-      pass
-    except Exception:  # flaky etc.: keep the unshrunk case
-      pass
-    if 'spec' in last:
-      # re-validate the minimal case outside Hypothesis
-      try:
-        run(last['spec'])
-      except core.Violation as v:
-        if '%s:%s' % (stats.name, v.tag) == bucket:
-          stats.failures[bucket].update(spec=last['spec'], shrunk=True,
-                                        message=v.message[:2000])
-      except Exception:
-        pass
+
+def shrink_bucket(prop_id, ph, idx, ctx, stats, runner, bucket):
+  """Re-run the shard that found `bucket` with the same seed, raising only for
+  that bucket, so that Hypothesis shrinks it. Returns the minimal failing spec."""
+  n = max(1, ph['examples'] // ctx['nshards'])
+  sd = derive_seed(ctx['seed'], ctx['shard'], idx)
+  strategy = ph['strategy']()
+  run = ph['run']
+  last = {}
+
+  @hypothesis.seed(sd)
+  @_settings(n, shrink=True, extra=ph.get('settings'))
+  @given(strategy)
+  def shrink(spec):
+    b = runner.execute(run, spec, only_bucket=bucket, record=False)
+    if b is not None:
+      last['spec'] = spec
+      with open(ctx['out'] + '.partial', 'w') as f:
+        f.write(core.jdump({'spec': spec}))
+      raise AssertionError(bucket)
+  try:
+    shrink()
+  except AssertionError:
+    pass
+  except Exception:  # flaky etc.: keep what we have
+    pass
+  if 'spec' not in last:
+    return None
+  try:
+    run(last['spec'])
+  except core.Violation as v:
+    if '%s:%s' % (stats.name, v.tag) == bucket:
+      return {'spec': last['spec'], 'message': v.message[:2000]}
+  except Exception:
+    pass
+  return None
 
 
 def run_enum_phase(prop_id, ph, idx, ctx, stats, runner):
@@ -199,7 +210,10 @@ def main():
       stats = PhaseStats(ph['name'])
       runner = Runner(ctx['prop'], stats, ctx.get('cur_file'))
       kind = ph.get('kind', 'hyp')
-      if kind == 'hyp':
+      if ctx.get('shrink_bucket'):
+        res = shrink_bucket(ctx['prop'], ph, idx, ctx, stats, runner, ctx['shrink_bucket'])
+        out['shrunk'] = res
+      elif kind == 'hyp':
         run_hyp_phase(ctx['prop'], ph, idx, ctx, stats, runner)
       elif kind == 'enum':
         run_enum_phase(ctx['prop'], ph, idx, ctx, stats, runner)
